@@ -18,6 +18,8 @@ structure St where
   a : Option Pipe := none
   b : Option Pipe := none
   n : Option Nat := none                          -- no-alloc logger: its level
+  wfail : List Nat := []                          -- ordinals (since case start) of recording-writer calls that fail
+  wcalls : Nat := 0                               -- recording-writer calls so far
 
 def errName : Err → String
   | .invalidArgument => "AWS_ERROR_INVALID_ARGUMENT"
@@ -75,19 +77,26 @@ def step (s : St) (t : List String) : St × List String :=
       else if w == "b" then (match s.b with | some p => ({ s with b := some (setLevel p level) }, ["P setlevel OK"]) | none => (s, ["bad-op"]))
       else if w == "n" then (match s.n with | some _ => ({ s with n := some level }, ["P setlevel OK"]) | none => (s, ["bad-op"]))
       else (s, ["bad-op"])
+  | "wfail" :: ks =>
+    match ks.mapM (fun k => if k == "-" then some none else k.toNat?.map some) with
+    | some l => ({ s with wfail := l.filterMap id }, [])
+    | none => (s, ["bad-op"])
   | ["pipe", w, level, _sid, subject, msgLen, shape, how] =>
     match level.toNat?, parseHex? subject, parseSize? msgLen, shape.toNat? with
     | some level, some subject, some msgLen, some shape =>
       if how != "macro" && how != "cond" then (s, ["bad-op"]) else
-      let c : Call := { level := level, subject := subject, msg := msgOf msgLen shape, ts := tsOf tss 1, tid := tid }
+      let c : Call := { level := level, subject := subject, msg := msgOf msgLen shape, ts := tsOf tss 1, tid := tid,
+                        writeOk := !(s.wfail.contains s.wcalls) }
       let go (p : Pipe) : Pipe × List String :=
         let p' := logf p c
         let newLines := p'.written.drop p.written.length
         -- lines created by the call minus lines released before it returns
         let created : Int := if gate p.level level then (match defaultFormat c.level c.subject c.msg c.ts c.tid with | .ok _ => 1 | .error _ => 0) else 0
         let live : Int := created - ((p'.destroyed.length : Int) - (p.destroyed.length : Int))
-        (p', s!"P log lines={newLines.length} live={live}" :: newLines.map lineOut)
-      if w == "a" then (match s.a with | some p => let (p', o) := go p; ({ s with a := some p' }, o) | none => (s, ["bad-op"]))
+        (p', s!"P log lines={newLines.length} live={live} werr={p'.writeErrors - p.writeErrors}" :: newLines.map lineOut)
+      if w == "a" then (match s.a with
+        | some p => let (p', o) := go p; ({ s with a := some p', wcalls := s.wcalls + (p'.written.length - p.written.length) }, o)
+        | none => (s, ["bad-op"]))
       else if w == "b" then (match s.b with | some p => let (p', o) := go p; ({ s with b := some p' }, o) | none => (s, ["bad-op"]))
       else (s, ["bad-op"])
     | _, _, _, _ => (s, ["bad-op"])
@@ -97,9 +106,9 @@ def step (s : St) (t : List String) : St × List String :=
       if how != "macro" && how != "cond" then (s, ["bad-op"]) else
       if gate cur level then
         match noallocFormat (List.replicate MAXIMUM_NO_ALLOC_LOG_LINE_SIZE 0xAA) level subject (msgOf msgLen shape) (tsOf tss 1) tid with
-        | .ok line => (s, ["P log lines=1 live=0", lineOut line])
-        | .error _ => (s, ["P log lines=0 live=0"])
-      else (s, ["P log lines=0 live=0"])
+        | .ok line => (s, ["P log lines=1 live=0 werr=0", lineOut line])
+        | .error _ => (s, ["P log lines=0 live=0 werr=0"])
+      else (s, ["P log lines=0 live=0 werr=0"])
     | _, _, _, _, _ => (s, ["bad-op"])
   | _ => (s, ["bad-op"])
 
